@@ -242,3 +242,12 @@ def run(ctx):
 
 SWEEP = ["concurrent/test_counter.cpp",
          "concurrent/test_thread_local.cpp"]
+
+
+# name anchors (validated by tools/rename_sweep.py; a vanished name is exit 2, see core.check_anchor_names)
+ANCHORS = {
+    'allocate_id': ['^babylon::CompactEnumerableThreadLocal(<|$)'],
+    'current_thread_id': ['^babylon::internal::ThreadIdImpl(<|$)'],
+    'ensure': ['^babylon::ConcurrentVector(<|$)'],
+    'storage': ['^babylon::CompactEnumerableThreadLocal(<|$)'],
+}
